@@ -363,6 +363,37 @@ func exec1(t []string) string {
 			return "stalled"
 		}
 		return "ok alive"
+	case "net.keidle": // "net.keidle <n> <tls|tcp>": n connections that stay open and silent, then a genuine client must still be served
+		if err := ensureServers(); err != nil {
+			return "skip " + strings.ReplaceAll(err.Error(), " ", "_")
+		}
+		n, _ := strconv.Atoi(t[1])
+		var held []net.Conn
+		for i := 0; i < n; i++ {
+			if t[2] == "tls" {
+				c, err := tls.DialWithDialer(&net.Dialer{Timeout: 2 * time.Second}, "tcp", "127.0.0.1:4460",
+					&tls.Config{InsecureSkipVerify: true, NextProtos: []string{"ntske/1"}, MinVersion: tls.VersionTLS13})
+				if err == nil {
+					held = append(held, c)
+				}
+			} else {
+				c, err := net.DialTimeout("tcp", "127.0.0.1:4460", 2*time.Second)
+				if err == nil {
+					held = append(held, c)
+				}
+			}
+		}
+		ok := sentinelNTSKE()
+		for _, c := range held {
+			c.Close()
+		}
+		if !srv.alive() {
+			return "dead"
+		}
+		if !ok {
+			return "stalled"
+		}
+		return "ok alive"
 	case "net.csptp": // datagram to the CSPTP listener: "net.csptp <319|320> <hex>"
 		if err := ensureServers(); err != nil {
 			return "skip " + strings.ReplaceAll(err.Error(), " ", "_")
@@ -669,6 +700,11 @@ func gen(c *lib.Ctx) {
 	do("ke", "net.ke ntske/1 "+hexs(good))
 	for cut := 0; cut <= len(good); cut += c.Scale(3, 1) {
 		do("ke-trunc", "net.ke ntske/1 "+hexs(good[:cut])+" close")
+	}
+	for _, kind := range []string{"tcp", "tls"} { // silent peers must not block other clients
+		for _, k := range []int{1, 3} {
+			do("ke-idle", fmt.Sprintf("net.keidle %d %s", k, kind))
+		}
 	}
 	for _, alpn := range []string{"h2", "ntske/2"} {
 		do("ke-alpn", "net.ke "+alpn+" "+hexs(good))
